@@ -6,7 +6,9 @@ import (
 	"fmt"
 	"os"
 	"runtime"
+	"sort"
 	"strconv"
+	"strings"
 	"testing"
 	"time"
 
@@ -90,6 +92,23 @@ func watchdog(wd time.Duration) {
 		if time.Since(lastChange) < wd {
 			continue
 		}
+		// No trace progress for wd. A real wedge under synctest always has a goroutine of the
+		// bubble waiting for a sync mutex (otherwise synctest.Wait would have returned), and the
+		// picture does not change: require both, so that a starved machine is never mistaken for
+		// a deadlock. After two minutes without progress and without that picture: harness failure.
+		a := bubbleBlocked()
+		time.Sleep(time.Second)
+		if tr.n.Load() != last {
+			continue
+		}
+		b := bubbleBlocked()
+		if a == "" || a != b {
+			if time.Since(lastChange) > 2*time.Minute {
+				fmt.Fprintf(os.Stderr, "verif-harness: no progress for 2 minutes and no mutex deadlock\n%s\n", b)
+				os.Exit(5)
+			}
+			continue
+		}
 		buf := make([]byte, 4<<20)
 		n := runtime.Stack(buf, true)
 		fmt.Fprintf(os.Stderr, "VERIF-WEDGED\n%s\n", buf[:n])
@@ -105,4 +124,31 @@ func watchdog(wd time.Duration) {
 		tr.emitRaw(x)
 		os.Exit(3)
 	}
+}
+
+// bubbleBlocked returns a stable description of the goroutines waiting for a sync mutex
+// ("" if there is none): goroutine id and innermost goat frame, sorted.
+func bubbleBlocked() string {
+	buf := make([]byte, 4<<20)
+	n := runtime.Stack(buf, true)
+	var out []string
+	for _, g := range strings.Split(string(buf[:n]), "\n\n") {
+		hdr := goroutineHdr.FindStringSubmatch(g)
+		if hdr == nil || !strings.Contains(hdr[2], "Mutex.Lock") && !strings.Contains(hdr[2], "RWMutex") {
+			continue
+		}
+		top := ""
+		for _, ln := range strings.Split(g, "\n") {
+			if strings.HasPrefix(ln, "github.com/avos-io/goat") {
+				top = ln
+				if i := strings.LastIndex(top, "("); i > 0 {
+					top = top[:i]
+				}
+				break
+			}
+		}
+		out = append(out, hdr[1]+":"+top)
+	}
+	sort.Strings(out)
+	return strings.Join(out, " ")
 }
